@@ -208,6 +208,16 @@ func c08CorpusRange(run *evid.Run, seed int64, from, to int, checkAll bool) []st
 		if clk != nil {
 			src.Clock = clk
 		}
+		if i%3 == 1 {
+			// the codec instance has been asked before for an entry it cannot write (an undefined identifier among the
+			// links): whatever that call returned, it must leave nothing behind that the next entry picks up
+			bad := &entry.Entry{LogID: w.LogID, Payload: []byte("not-writable"), Next: append(append([]cid.Cid(nil), next...), cid.Undef), Refs: append([]cid.Cid{cid.Undef}, refs...)}
+			if _, err := entry.CreateEntryWithIO(ctx, store.New().API(), ident, bad, nil, io); err != nil {
+				run.Count("refused_creations_before_the_item_"+codec, 1)
+			} else {
+				run.Count("accepted_creations_with_an_undefined_link_before_the_item_"+codec, 1)
+			}
+		}
 		created, err := entry.CreateEntryWithIO(ctx, w.Store.API(), ident, src, nil, io)
 		if err != nil {
 			run.Violate("C08/create-error", det("codec", codec, "class", class), wit(), "CreateEntryWithIO failed: %v", err)
